@@ -16,21 +16,51 @@ TR = "conch/ssh/transport.py"
 CMN = "conch/ssh/common.py"
 QT = "twisted.conch.ssh.transport.SSHTransportBase."
 QS = "twisted.conch.ssh.transport.SSHCiphers."
-TECHNIQUE = "finite evaluation of the extracted transport (interpreted source, stub ciphers) against RFC 4253 references"
+TECHNIQUE = ("structural: CFG dominance / must-pass-through / per-path counting, normalised linear comparisons, who-may-write and table agreement on the "
+             "normalised view of SSHTransportBase / SSHCiphers (private helpers inlined, pure temporaries substituted); finite-exhaustive evaluation of the "
+             "padding arithmetic; second layer (bounded): the source interpreted with stand-in ciphers against RFC 4253 reference encoder / decoder")
+RULE_KINDS = {
+    "s/": "structural",
+    "s/framing/padding-arithmetic": "finite-exhaustive",
+    "tables/": "structural",
+    "tables/compression-handled": "bounded",
+    "sender/": "bounded",
+    "receiver/": "bounded",
+    "tamper/": "bounded",
+    "rekey/": "bounded",
+    "mac/": "bounded",
+    "setkeys/": "bounded",
+    "version/": "bounded",
+}
 EXPLANATION = (
-    "The source of SSHTransportBase / SSHCiphers is evaluated by a whitelisted interpreter (no twisted code is run) with stand-ins for the "
-    "cryptography: a position-dependent stream cipher (decrypting a block twice or out of place corrupts it), a keyed tag MAC over "
-    "sequence number || packet, and a framing compressor that releases data only on a sync flush. (1) sendPacket's wire is parsed by an RFC 4253 "
-    "reference decoder for block sizes 8/16, MAC sizes 0/20/32, compression on/off and payload lengths covering every padding class: "
-    "padding >= 4, alignment, length field, MAC over the plaintext packet with consecutive sequence numbers, one flushed compression frame per "
-    "packet. (2) getPacket/dataReceived receive the reference encoder's wire whole, byte-wise and under every two-way split of the first "
-    "packets: exactly the payloads, in order, no disconnect; a 35000-byte packet is accepted; every single-byte corruption of a MAC-protected "
-    "packet delivers nothing altered and (beyond the length field) disconnects. (3) messages blocked during key exchange are queued without "
-    "consuming a sequence number and flushed in order under the new keys by _newKeys, which installs a compressor / decompressor for each "
-    "offered compression. (4) SSHCiphers.makeMAC/verify of a peer pair agree, are sensitive to sequence number, every data byte and every MAC "
-    "byte, and setKeys wires each direction's cipher, key, IV and integrity key to that direction. (5) version exchange: banner / version / "
-    "tail streams under every two-way split against the reference 'first complete line starting with SSH-'; two defects are reported as "
-    "known findings F35a/F35b. (6) offered MACs / ciphers have table entries. Not decided: the real cryptography, key exchange."
+    "Two layers. Rules named s/... are STRUCTURAL (decided on the normalised code, nothing evaluated) and give the for-all verdict; the unprefixed rules are "
+    "BOUNDED (source interpreted by a whitelisted interpreter with stand-in ciphers on enumerated inputs) and serve as witnesses and as cover where a "
+    "structural rule abstains (an abstention is written as a note 's/<group>: shape not recognised ...; clause left to <bounded rule>'). Per clause: "
+    "[MAC before delivery] s/mac/verified-before-delivery: every CFG path from entry to `return payload` of getPacket passes the true edge of verify(...) "
+    "(or the false edge of `not verify`), the verified bytes are the decrypted packet that is delivered (s/mac/authenticates-what-is-delivered), the MAC "
+    "bytes are cut from the buffer, a mismatch reaches sendDisconnect and returns nothing (s/mac/mismatch-disconnects, s/deliver/nothing-after-disconnect) "
+    "- structural; bounded witness tamper/*: every single-byte corruption of sample packets. "
+    "[sequence numbers] s/sequence/incoming-once-per-packet, outgoing-once-per-packet: on every path to a delivered / written packet the counter is "
+    "incremented exactly once, on no other path, and the MAC is computed before the increment - structural (CFG counting); bounded witness sender/mac-and-sequence. "
+    "[length / padding guards] s/length/*, s/header/*: guards compared as normalised linear inequalities (lincmp) with the RFC bounds (limit admits 35000, "
+    "block alignment of length+4, padding < length) - structural; s/framing/padding-arithmetic is FINITE-EXHAUSTIVE: the sender's own arithmetic is "
+    "evaluated for every residue class of len(payload) for block sizes 8..64 after checking on the code that the payload is read only through len(). "
+    "[segmentation] s/segmentation/*: first block decrypted once and kept across calls, wait for the whole packet, consume exactly packet+MAC - structural; "
+    "bounded witness receiver/segmentation-invariant (every two-way split, byte-wise). "
+    "[key re-exchange] s/kex/blocked-before-write: every path to transport.write passes the `no key exchange in progress or message type allowed` "
+    "predicate; s/rekey/queue, s/rekey/flush-in-order: blocked messages appended without consuming a sequence number, _newKeys flushes the queue in order "
+    "after installing the keys; s/state/per-instance: mutable containers mutated through self are rebound per instance (not shared class attributes) - "
+    "structural; bounded witnesses rekey/*. "
+    "[MAC computation] s/mac/covers-sequence-number, siblings-agree, direction, none-path, whole-digest-compared, s/setkeys/direction-consistent: makeMAC "
+    "and verify (through a straight-line private helper if any) authenticate uint32(seq) || packet with their own direction's key and digest, verify "
+    "compares whole digests - structural (sibling / table agreement); bounded witness mac/peer-agreement-and-sensitivity. "
+    "[compression] s/compression/*: compress is followed by a sync flush on every path, decompression applied to the payload only - structural; "
+    "bounded: rekey/compression-contexts-restart-together, tables/compression-handled (evaluated _newKeys). "
+    "[tables] s/tables/*, tables/*: offered MACs / ciphers / compressions have table entries - structural. "
+    "[version exchange] s/version/*: the scan loop's exits are classified on the CFG (banner lines skipped, rest preserved, length limit); two of the "
+    "exits are the known findings F35a / F35b - structural; bounded witnesses version/* (streams under every two-way split). "
+    "Bounded evidence only: sender/compression-framing's 'one frame per packet' with a stateful compressor and rekey/compression-contexts-restart-together "
+    "(depends on object identity across _newKeys; no structural decider written). Not decided: the real cryptography, key exchange."
 )
 ASSUMPTIONS = [
     "currentEncryptions is an SSHCiphers-like object (encrypt / decrypt / makeMAC / verify, encBlockSize / decBlockSize / verifyDigestSize)",
@@ -896,6 +926,19 @@ MUTANTS = [
            more=[(TR, "        encData, self.buf = self.buf[: 4 + packetLen], self.buf[4 + packetLen :]", "        encData, self.buf = self.buf[:wireLen], self.buf[wireLen:]")],
            expect_rule="receiver/segmentation-invariant"),
     Mutant("stale-first-block", TR, "            first = self.first\n            del self.first\n", "            first = self.first\n", expect_rule="receiver/segmentation-invariant"),
+    # the same faults must be caught by the structural / finite-exhaustive layer alone
+    Mutant('s-return-payload-before-mac-test', TR, '        if ms:\n            macData, self.buf = self.buf[:ms], self.buf[ms:]\n            if not self.currentEncryptions.verify(\n                self.incomingPacketSequence, packet, macData\n            ):\n                self.sendDisconnect(DISCONNECT_MAC_ERROR, b"bad MAC")\n                return\n        payload = packet[5:-paddingLen]\n',
+           '        payload = packet[5:-paddingLen]\n        if ms and not self.incomingCompression:\n            macData, self.buf = self.buf[:ms], self.buf[ms:]\n            if not self.currentEncryptions.verify(\n                self.incomingPacketSequence, packet, macData\n            ):\n                self.sendDisconnect(DISCONNECT_MAC_ERROR, b"bad MAC")\n                return\n', expect_rule='s/mac/verified-before-delivery'),
+    Mutant('s-wait-ignores-mac-length', TR, '        if len(self.buf) < packetLen + 4 + ms:',
+           '        if len(self.buf) < packetLen + 4:', expect_rule='s/segmentation/wait-for-whole-packet'),
+    Mutant('s-sequence-bumped-when-queued', TR, '                self._blockedByKeyExchange.append((messageType, payload))\n                return\n',
+           '                self._blockedByKeyExchange.append((messageType, payload))\n                self.outgoingPacketSequence += 1\n                return\n', expect_rule='s/sequence/outgoing-once-per-packet'),
+    Mutant('s-padding-off-by-one', TR, '        if lenPad < 4:\n            lenPad = lenPad + bs\n',
+           '        if lenPad < 3:\n            lenPad = lenPad + bs\n', expect_rule='s/framing/padding-arithmetic'),
+    Mutant('s-rekey-flush-before-state-reset', TR, '        self._keyExchangeState = self._KEY_EXCHANGE_NONE\n        messages = self._blockedByKeyExchange\n        self._blockedByKeyExchange = None\n        for messageType, payload in messages:\n            self.sendPacket(messageType, payload)\n',
+           '        messages = self._blockedByKeyExchange\n        self._blockedByKeyExchange = None\n        for messageType, payload in messages:\n            self.sendPacket(messageType, payload)\n        self._keyExchangeState = self._KEY_EXCHANGE_NONE\n', expect_rule='s/rekey/flush-in-order'),
+    Mutant('s-verify-compares-prefix', TR, '        return hmac.compare_digest(mac, outer)',
+           '        return hmac.compare_digest(mac[:8], outer[:8])', expect_rule='s/mac/whole-digest-compared'),
 ]
 SILENT = [
     Silent("verify-result-in-named-boolean", TR, "            if not self.currentEncryptions.verify(\n                self.incomingPacketSequence, packet, macData\n            ):\n                self.sendDisconnect(DISCONNECT_MAC_ERROR, b\"bad MAC\")\n                return\n",
